@@ -136,6 +136,21 @@ def to_v(t: T, x) -> V:
         return mk_tuple(t, [to_v(it, e).z for it, e in zip(t.items, x)])
     if isinstance(t, TOpt):
         return opt_none(t) if x is None else opt_some(t, to_v(t.t, x).z)
+    if isinstance(t, TDict) and isinstance(x, dict):
+        from .types import mk_dict, sort_of as _so
+        dom = z3.K(_so(t.k), z3.BoolVal(False))
+        val = z3.K(_so(t.k), default_of(t.v).z)
+        for k_, v_ in x.items():
+            kz = to_v(t.k, k_).z
+            dom = z3.Store(dom, kz, z3.BoolVal(True))
+            val = z3.Store(val, kz, to_v(t.v, v_).z)
+        return mk_dict(t, dom, val, z3.IntVal(len(x)))
+    if isinstance(t, TSet) and isinstance(x, (set, frozenset)):
+        from .types import mk_set, sort_of as _so
+        mem = z3.K(_so(t.k), z3.BoolVal(False))
+        for e in x:
+            mem = z3.Store(mem, to_v(t.k, e).z, z3.BoolVal(True))
+        return mk_set(t, mem, z3.IntVal(len(x)))
     raise TypeError(f"cannot concretise {t}: {x!r}")
 
 
@@ -265,18 +280,21 @@ def replay(key: str, cex: dict, variant=None):
     def _on_alarm(signum, frame):
         raise _Hang()
 
-    old_handler = signal.signal(signal.SIGALRM, _on_alarm)
-    signal.alarm(5)
+    # CPU-time budget (ITIMER_VIRTUAL): a loaded machine must not turn a slow call into a 'hang'
+    old_handler = signal.signal(signal.SIGVTALRM, _on_alarm)
+    signal.setitimer(signal.ITIMER_VIRTUAL, 10)
     try:
-        res, post_py, exc = native_call(sp, cls, fn.name, cex, pnames)
+        try:
+            res, post_py, exc = native_call(sp, cls, fn.name, cex, pnames)
+        finally:
+            signal.setitimer(signal.ITIMER_VIRTUAL, 0)
     except _Hang:
-        return {"confirmed": True, "detail": "real code does not return within 5 s on this input (state satisfies the requires)",
+        return {"confirmed": True, "detail": "real code does not return within 10 s of CPU time on this input (state satisfies the requires)",
                 "observed": "no return"}
     except Exception as e:  # construction failed
         return {"confirmed": False, "detail": f"could not build native input: {e!r}"}
     finally:
-        signal.alarm(0)
-        signal.signal(signal.SIGALRM, old_handler)
+        signal.signal(signal.SIGVTALRM, old_handler)
     if exc is not None:
         if sp.raises_ok or isinstance(exc, (ValueError, NotImplementedError)):
             # input validation: the call returns nothing, the contracts say nothing about it
@@ -295,6 +313,9 @@ def replay(key: str, cex: dict, variant=None):
             try:
                 post.vars[name] = to_v(v.t, post_py[name])
             except TypeError as e:
+                if isinstance(v.t, TU):
+                    post.vars[name] = pre.vars[name]  # uninterpreted value (string, Random instance): not tracked
+                    continue
                 return {"confirmed": False, "detail": f"cannot concretise post {name}: {e}"}
         elif name in mods:
             from .types import fresh
@@ -347,7 +368,12 @@ def replay(key: str, cex: dict, variant=None):
             "observed": {"result": repr(res), "post": {k: repr(v) for k, v in post_py.items()}}}
 
 
-def random_value(t: T, rng, N):
+def random_value(t: T, rng, N, pool=()):
+    if isinstance(t, TU) and t.uname == "rng":
+        import random as _r
+        return _r.Random(rng.randint(0, 10 ** 6))
+    if isinstance(t, TU) and t.uname == "opaque" and pool:
+        return rng.choice(list(pool))  # an uninterpreted str parameter: one of the string literals the function compares with
     if t == INT:
         return rng.randint(-1, N + 1)
     if t == REAL:
@@ -355,11 +381,11 @@ def random_value(t: T, rng, N):
     if t == BOOL:
         return rng.random() < 0.5
     if isinstance(t, TList):
-        return [random_value(t.elem, rng, N) for _ in range(rng.randint(0, N))]
+        return [random_value(t.elem, rng, N, pool) for _ in range(rng.randint(0, N))]
     if isinstance(t, TTuple):
-        return [random_value(i, rng, N) for i in t.items]
+        return tuple(random_value(i, rng, N, pool) for i in t.items)
     if isinstance(t, TOpt):
-        return None if rng.random() < 0.3 else random_value(t.t, rng, N)
+        return None if rng.random() < 0.3 else random_value(t.t, rng, N, pool)
     raise TypeError(str(t))
 
 
@@ -379,6 +405,9 @@ def random_search(key, variant=None, budget=80, seed=0, N=4, wall_s=40):
     if cls and cls in REG.classes:
         ghost = {f"self.{g}" for g in REG.classes[cls].ghost}
     tried = 0
+    import ast as _ast
+    pool = sorted({c.value for n in _ast.walk(fn) if isinstance(n, _ast.Compare) for c in [n.left] + list(n.comparators)
+                   if isinstance(c, _ast.Constant) and isinstance(c.value, str)})
     import time as _t
     t_end = _t.time() + wall_s
     for _ in range(budget * 6):
@@ -389,7 +418,7 @@ def random_search(key, variant=None, budget=80, seed=0, N=4, wall_s=40):
             for name, v in ex.input_syms.items():
                 if v.z is None or name in ghost or isinstance(v.t, TMap):
                     continue
-                cex[name] = random_value(v.t, rng, N)
+                cex[name] = random_value(v.t, rng, N, pool)
         except TypeError:
             return None
         rp = replay(key, cex, variant)
